@@ -100,7 +100,7 @@ Proof.
   destruct (tls_of w i sec T1) as [hash1 T1']. destruct (tls_of w i sec T2) as [hash2 T2'].
   cbn [fst snd] in Hh, Ht. subst hash2.
   rewrite (seq_get_host s1 s2 hn Hs). destruct (get_host s2 hn) as [hr|]; [|split; assumption].
-  destruct (h_tls hr); (split; cbn [fst snd]; [|exact Ht]); [apply seq_upd; exact Hs|exact Hs].
+  destruct (h_tls hr); (split; cbn [fst snd]; [|exact Ht]); [exact Hs|apply seq_upd; exact Hs].
 Qed.
 
 Lemma sync_tls_equiv w i blk x y : st_equiv x y -> st_equiv (sync_tls w i x blk) (sync_tls w i y blk).
@@ -115,3 +115,319 @@ Qed.
 Theorem fold_sync_equiv w l x y :
   st_equiv x y -> st_equiv (fold_left (sync_ingress w) l x) (fold_left (sync_ingress w) l y).
 Proof. apply fold_equiv. intros i a b. apply sync_ingress_equiv. Qed.
+
+(* ================================================================== *)
+(* trackAddedIngress only adds links: it prepends them                  *)
+(* ================================================================== *)
+Definition same_set {A} (l l' : list A) : Prop := forall x, In x l <-> In x l'.
+
+Lemma perm_same_set {A} (l l' : list A) : Permutation l l' -> same_set l l'.
+Proof.
+  intros Hp x. split; intros H; [eapply Permutation_in; [exact Hp|exact H]|].
+  eapply Permutation_in; [apply Permutation_sym; exact Hp|exact H].
+Qed.
+
+Lemma fold_prepend {A B} (f : list B -> A -> list B) :
+  (forall T a, f T a = f [] a ++ T) -> forall l T, fold_left f l T = fold_left f l [] ++ T.
+Proof.
+  intros Hf. induction l as [|a l IH]; intros T; cbn [fold_left]; [reflexivity|].
+  rewrite IH, (IH (f [] a)), (Hf T a), app_assoc. reflexivity.
+Qed.
+
+Lemma find_backend_seq w s s' i r : seq_c s s' -> find_backend w s i r = find_backend w s' i r.
+Proof.
+  intros Hs. unfold find_backend. destruct (find_svc w _) as [svc|]; [|reflexivity].
+  destruct (find_port svc _ _) as [p|]; [|reflexivity]. rewrite (seq_get_back s s' _ Hs). reflexivity.
+Qed.
+
+Lemma track_added_seq w s s' T i : seq_c s s' -> track_added_ing w s T i = track_added_ing w s' T i.
+Proof.
+  intros Hs. unfold track_added_ing. f_equal. apply fold_left_ext_in. intros T0 rule _.
+  apply fold_left_ext_in. intros T1 r _. rewrite (find_backend_seq w s s' i r Hs). reflexivity.
+Qed.
+
+Lemma track_added_prepend w s i T : track_added_ing w s T i = track_added_ing w s [] i ++ T.
+Proof.
+  unfold track_added_ing.
+  set (g := fun (T : ctracker) (r : prule) =>
+              match find_backend w s i r with
+              | Some bid => track T (KIngress, i_full i) (KBackend, bid)
+              | None => T
+              end).
+  set (f := fun (T : ctracker) (rule : string * list prule) =>
+              let T' := track T (KIngress, i_full i) (KHost, norm_host (fst rule)) in
+              fold_left g (snd rule) T').
+  set (h1 := fun (T : ctracker) (h : string) => track T (KIngress, i_full i) (KHost, h)).
+  set (h := fun (T : ctracker) (blk : list string * string) => fold_left h1 (fst blk) T).
+  assert (Hg : forall T r, g T r = g [] r ++ T).
+  { intros T0 r. unfold g. destruct (find_backend w s i r); reflexivity. }
+  assert (Hf : forall T rule, f T rule = f [] rule ++ T).
+  { intros T0 rule. unfold f. cbv zeta. rewrite (fold_prepend g Hg), (fold_prepend g Hg _ (track [] _ _)).
+    rewrite <- app_assoc. reflexivity. }
+  assert (Hh1 : forall T x, h1 T x = h1 [] x ++ T) by (intros; reflexivity).
+  assert (Hh : forall T blk, h T blk = h [] blk ++ T).
+  { intros T0 blk. unfold h. apply (fold_prepend h1 Hh1). }
+  rewrite (fold_prepend h Hh), (fold_prepend f Hf), (fold_prepend h Hh _ (fold_left f _ [])).
+  rewrite <- app_assoc. reflexivity.
+Qed.
+
+Lemma fold_track_added_In w s l : forall T e,
+  In e (fold_left (track_added_ing w s) l T) <-> In e T \/ exists i, In i l /\ In e (track_added_ing w s [] i).
+Proof.
+  induction l as [|i l IH]; intros T e; cbn [fold_left].
+  - split; [intros H; left; exact H|intros [H|(i & [] & _)]; exact H].
+  - rewrite IH, track_added_prepend, in_app_iff. split.
+    + intros [[H|H]|(j & Hj & H)].
+      * right. exists i. split; [left; reflexivity|exact H].
+      * left. exact H.
+      * right. exists j. split; [right; exact Hj|exact H].
+    + intros [H|(j & [<-|Hj] & H)].
+      * left. right. exact H.
+      * left. left. exact H.
+      * right. exists j. split; assumption.
+Qed.
+
+Lemma fold_track_added_equiv w s s' l l' T T' :
+  seq_c s s' -> same_set l l' -> teq T T' ->
+  teq (fold_left (track_added_ing w s) l T) (fold_left (track_added_ing w s') l' T').
+Proof.
+  intros Hs Hl HT e. rewrite !fold_track_added_In. split.
+  - intros [H|(i & Hi & H)]; [left; apply HT; exact H|right]. exists i. split; [apply Hl; exact Hi|].
+    rewrite <- (track_added_seq w s s' [] i Hs). exact H.
+  - intros [H|(i & Hi & H)]; [left; apply HT; exact H|right]. exists i. split; [apply Hl; exact Hi|].
+    rewrite (track_added_seq w s s' [] i Hs). exact H.
+Qed.
+
+(* ================================================================== *)
+(* QueryLinks: the output, as a set, depends on the links and the input as sets *)
+(* ================================================================== *)
+Lemma clos_trans_equiv {A} (R R' : A -> A -> Prop) :
+  (forall a b, R a b -> R' a b) -> forall a b, clos_trans A R a b -> clos_trans A R' a b.
+Proof.
+  intros H a b Hc. induction Hc as [a b Hr|a b c _ IH1 _ IH2]; [apply t_step; apply H; exact Hr|].
+  eapply t_trans; eassumption.
+Qed.
+
+Lemma reach_equiv (T T' : ctracker) input input' m :
+  teq T T' -> same_set input input' -> reach node T input m -> reach node T' input' m.
+Proof.
+  intros HT Hi (n & Hn & Hc). exists n. split; [apply Hi; exact Hn|].
+  eapply clos_trans_equiv; [|exact Hc]. intros a b. unfold edge. apply HT.
+Qed.
+
+Lemma query_remove_equiv (T T' : ctracker) input input' :
+  teq T T' -> same_set input input' ->
+  match query_remove node_eqb T input, query_remove node_eqb T' input' with
+  | Some (out, T2), Some (out', T2') => same_set out out' /\ teq T2 T2'
+  | _, _ => False
+  end.
+Proof.
+  intros HT Hi. unfold query_remove.
+  destruct (query_links node_eqb T input) as [out|] eqn:E1;
+    [|exfalso; exact (query_links_total node node_eqb node_eqb_spec _ _ E1)].
+  destruct (query_links node_eqb T' input') as [out'|] eqn:E2;
+    [|exfalso; exact (query_links_total node node_eqb node_eqb_spec _ _ E2)].
+  assert (Ho : same_set out out').
+  { intros m. rewrite (query_links_reach node node_eqb node_eqb_spec T input out E1),
+                      (query_links_reach node node_eqb node_eqb_spec T' input' out' E2).
+    split; apply reach_equiv; try assumption.
+    - intros e. symmetry. apply HT.
+    - intros x. symmetry. apply Hi. }
+  split; [exact Ho|]. intros [a b].
+  rewrite !(remove_refs_spec node node_eqb node_eqb_spec). rewrite (HT (a, b)), (Ho a), (Ho b). tauto.
+Qed.
+
+Lemma mem_same_set (n : node) out out' : same_set out out' -> mem node_eqb n out = mem node_eqb n out'.
+Proof.
+  intros H. apply eq_true_iff_eq. rewrite !(mem_In node node_eqb node_eqb_spec). apply H.
+Qed.
+
+Lemma remove_all_equiv s s' out out' : seq_c s s' -> same_set out out' -> seq_c (remove_all s out) (remove_all s' out').
+Proof.
+  intros Hs Ho t. unfold remove_all. destruct t as [h|b].
+  - rewrite (mem_same_set (KHost, h) out out' Ho). destruct (mem _ _ _); [reflexivity|apply Hs].
+  - rewrite (mem_same_set (KBackend, b) out out' Ho). destruct (mem _ _ _); [reflexivity|apply Hs].
+Qed.
+
+(* ================================================================== *)
+(* the merge of the names, then sortIngress                             *)
+(* ================================================================== *)
+Record batch_perm (b b' : batch) : Prop := {
+  bp_links : Permutation (b_links b) (b_links b');
+  bp_add : Permutation (b_add b) (b_add b');
+  bp_upd : Permutation (b_upd b) (b_upd b');
+  bp_del : Permutation (b_del b) (b_del b')
+}.
+
+(* two added objects of one name: the same object, unless the name was also updated or
+   deleted in the batch (then the cache is asked, whatever was added) *)
+Definition add_consistent (b : batch) : Prop :=
+  forall i j, In i (b_add b) -> In j (b_add b) -> i_full i = i_full j ->
+    i = j \/ In (i_full i) (b_del b) \/ In (i_full i) (map i_full (b_upd b)).
+
+Lemma existsb_same_set {A} (f : A -> bool) l l' : same_set l l' -> existsb f l = existsb f l'.
+Proof.
+  intros H. apply eq_true_iff_eq. rewrite !existsb_exists.
+  split; intros (x & Hx & Hf); exists x; (split; [apply H; exact Hx|exact Hf]).
+Qed.
+
+Lemma merge_names_In dirty b x :
+  In x (merge_names dirty b) <-> (In x dirty /\ ~ In x (b_del b)) \/ In x (map i_full (b_add b)).
+Proof.
+  unfold merge_names. rewrite dedup_In, in_app_iff, filter_In. 
+  assert (He : negb (existsb (String.eqb x) (b_del b)) = true <-> ~ In x (b_del b)).
+  { rewrite negb_true_iff. split.
+    - intros Hf Hin. apply Bool.not_true_iff_false in Hf. apply Hf. apply existsb_exists.
+      exists x. split; [exact Hin|apply String.eqb_refl].
+    - intros Hn. apply Bool.not_true_iff_false. intros Ht. apply Hn.
+      apply existsb_exists in Ht as (y & Hy & Hxy). apply String.eqb_eq in Hxy. subst y. exact Hy. }
+  rewrite He. tauto.
+Qed.
+
+Lemma merge_names_perm dirty dirty' b b' :
+  same_set dirty dirty' -> batch_perm b b' -> Permutation (merge_names dirty b) (merge_names dirty' b').
+Proof.
+  intros Hd Hb. apply NoDup_Permutation; [apply dedup_NoDup|apply dedup_NoDup|].
+  intros x. rewrite !merge_names_In.
+  pose proof (perm_same_set _ _ (bp_del b b' Hb) x) as H1.
+  pose proof (perm_same_set _ _ (Permutation_map i_full (bp_add b b' Hb)) x) as H2.
+  pose proof (Hd x) as H3. tauto.
+Qed.
+
+Lemma find_ing_name w n i : find_ing w n = Some i -> i_full i = n.
+Proof. unfold find_ing. intros H. apply find_some in H as [_ H]. apply String.eqb_eq. exact H. Qed.
+
+Lemma pick_ing_name w b n i : pick_ing w b n = Some i -> i_full i = n.
+Proof.
+  unfold pick_ing. destruct (_ || _); [apply find_ing_name|].
+  destruct (find _ (rev (b_add b))) as [j|] eqn:E; [|apply find_ing_name].
+  intros H. inversion H; subst j. apply find_some in E as [_ E]. apply String.eqb_eq. exact E.
+Qed.
+
+Lemma pick_ing_perm w b b' n : batch_perm b b' -> add_consistent b -> pick_ing w b n = pick_ing w b' n.
+Proof.
+  intros Hb Hc. unfold pick_ing.
+  rewrite (existsb_same_set _ _ _ (perm_same_set _ _ (bp_del b b' Hb))),
+          (existsb_same_set _ _ _ (perm_same_set _ _ (bp_upd b b' Hb))).
+  destruct (existsb (String.eqb n) (b_del b')) eqn:Ed; [reflexivity|].
+  destruct (existsb (fun i => String.eqb (i_full i) n) (b_upd b')) eqn:Eu; [reflexivity|]. cbn [orb].
+  assert (Hf : find (fun i => String.eqb (i_full i) n) (rev (b_add b))
+             = find (fun i => String.eqb (i_full i) n) (rev (b_add b'))).
+  { apply find_perm_unique.
+    - eapply perm_trans; [apply Permutation_sym, Permutation_rev|].
+      eapply perm_trans; [exact (bp_add b b' Hb)|apply Permutation_rev].
+    - intros x y Hx Hy Hfx Hfy. apply String.eqb_eq in Hfx, Hfy.
+      apply in_rev in Hx. apply in_rev in Hy.
+      destruct (Hc x y Hx Hy (eq_trans Hfx (eq_sym Hfy))) as [H|[H|H]]; [exact H| |]; exfalso.
+      + rewrite Hfx in H. apply (perm_same_set _ _ (bp_del b b' Hb)) in H.
+        apply Bool.not_true_iff_false in Ed. apply Ed. apply existsb_exists. exists n. split; [exact H|apply String.eqb_refl].
+      + rewrite Hfx in H. apply in_map_iff in H as (u & Hu & Hin). apply (perm_same_set _ _ (bp_upd b b' Hb)) in Hin.
+        apply Bool.not_true_iff_false in Eu. apply Eu. apply existsb_exists. exists u. split; [exact Hin|apply String.eqb_eq; exact Hu]. }
+  rewrite Hf. reflexivity.
+Qed.
+
+Lemma picked_NoDup w b names : NoDup names ->
+  NoDup (map i_full (flat_map (fun n => opt_list (pick_ing w b n)) names)).
+Proof.
+  induction names as [|n r IH]; intros Hn; cbn [flat_map map]; [constructor|].
+  inversion Hn as [|? ? Hnr Hr]; subst. rewrite map_app. apply NoDup_app_intro; [|apply IH; exact Hr|].
+  - destruct (pick_ing w b n); cbn; [constructor; [intros []|constructor]|constructor].
+  - intros x Hx Hin. destruct (pick_ing w b n) as [i|] eqn:E; cbn in Hx; [|destruct Hx].
+    destruct Hx as [<-|[]]. rewrite (pick_ing_name w b n i E) in Hin.
+    apply in_map_iff in Hin as (j & Hj & Hin). apply in_flat_map in Hin as (m & Hm & Hjm).
+    destruct (pick_ing w b m) as [j'|] eqn:E2; cbn in Hjm; [|destruct Hjm]. destruct Hjm as [->|[]].
+    rewrite (pick_ing_name w b m j E2) in Hj. subst m. contradiction.
+Qed.
+
+Lemma sorted_picks_perm w b b' names names' :
+  batch_perm b b' -> add_consistent b -> Permutation names names' -> NoDup names ->
+  sort_ings (flat_map (fun n => opt_list (pick_ing w b n)) names)
+  = sort_ings (flat_map (fun n => opt_list (pick_ing w b' n)) names').
+Proof.
+  intros Hb Hc Hp Hn. apply sort_ings_perm; [|apply picked_NoDup; exact Hn].
+  rewrite (flat_map_ext _ (fun n => opt_list (pick_ing w b' n))).
+  - apply Permutation_flat_map. exact Hp.
+  - intros n. rewrite (pick_ing_perm w b b' n Hb Hc). reflexivity.
+Qed.
+
+(* ================================================================== *)
+(* syncPartial: the order of the events of a batch does not matter     *)
+(* ================================================================== *)
+Theorem sync_partial_batch_perm w' x x' b b' :
+  st_equiv x x' -> batch_perm b b' -> add_consistent b ->
+  match sync_partial w' x b, sync_partial w' x' b' with
+  | Some y, Some y' => st_equiv y y'
+  | _, _ => False
+  end.
+Proof.
+  destruct x as [s T], x' as [s' T']. intros [Hs HT] Hb Hc. cbn [fst snd] in Hs, HT. unfold sync_partial.
+  assert (Hl : same_set (b_add b ++ b_upd b) (b_add b' ++ b_upd b')).
+  { apply perm_same_set. apply Permutation_app; [exact (bp_add b b' Hb)|exact (bp_upd b b' Hb)]. }
+  pose proof (fold_track_added_equiv w' s s' _ _ T T' Hs Hl HT) as HT1.
+  pose proof (query_remove_equiv _ _ (b_links b) (b_links b') HT1 (perm_same_set _ _ (bp_links b b' Hb))) as Hq.
+  destruct (query_remove node_eqb (fold_left (track_added_ing w' s) (b_add b ++ b_upd b) T) (b_links b)) as [[out T2]|];
+    [|exact Hq].
+  destruct (query_remove node_eqb (fold_left (track_added_ing w' s') (b_add b' ++ b_upd b') T') (b_links b')) as [[out' T2']|];
+    [|exact Hq].
+  destruct Hq as [Ho HT2].
+  assert (Hnames : same_set (names_of KIngress out) (names_of KIngress out')).
+  { intros n. rewrite !names_of_In. apply Ho. }
+  rewrite (sorted_picks_perm w' b b' _ _ Hb Hc (merge_names_perm _ _ b b' Hnames Hb) (dedup_NoDup _)).
+  apply fold_sync_equiv. split; cbn [fst snd]; [apply remove_all_equiv; assumption|exact HT2].
+Qed.
+
+(* what the normal form of the written files shows *)
+Corollary sync_partial_batch_perm_obs w' x b b' :
+  batch_perm b b' -> add_consistent b ->
+  match sync_partial w' x b, sync_partial w' x b' with
+  | Some y, Some y' => forall hn, obs_host (fst y) hn = obs_host (fst y') hn
+  | _, _ => False
+  end.
+Proof.
+  intros Hb Hc. pose proof (sync_partial_batch_perm w' x x b b' (st_equiv_refl x) Hb Hc) as H.
+  destruct (sync_partial w' x b) as [y|]; [|exact H]. destruct (sync_partial w' x b') as [y'|]; [|exact H].
+  destruct H as [Hs _]. intros hn. unfold obs_host. rewrite (seq_get_host _ _ hn Hs).
+  destruct (get_host (fst y') hn) as [r|]; [|reflexivity]. f_equal. f_equal.
+  apply map_ext. intros p. unfold obs_path. rewrite (seq_get_back _ _ _ Hs). reflexivity.
+Qed.
+
+(* a whole history of batches, each delivered in another event order *)
+Fixpoint run_batches (x : st) (h : list (batch * world)) : option st :=
+  match h with
+  | [] => Some x
+  | (b, w') :: r => match sync_partial w' x b with Some x' => run_batches x' r | None => None end
+  end.
+
+Theorem run_batches_perm h : forall h' x x',
+  Forall2 (fun p p' => snd p = snd p' /\ batch_perm (fst p) (fst p') /\ add_consistent (fst p)) h h' ->
+  st_equiv x x' ->
+  match run_batches x h, run_batches x' h' with
+  | Some y, Some y' => st_equiv y y'
+  | _, _ => False
+  end.
+Proof.
+  induction h as [|[b w] r IH]; intros h' x x' H2 He; inversion H2 as [|? [b' w2] ? r' (Hw & Hb & Hc) Hr]; subst.
+  - exact He.
+  - cbn [fst snd] in *. subst w2. cbn [run_batches].
+    pose proof (sync_partial_batch_perm w x x' b b' He Hb Hc) as Hstep.
+    destruct (sync_partial w x b) as [y|]; [|exact Hstep]. destruct (sync_partial w x' b') as [y'|]; [|destruct Hstep].
+    apply IH; assumption.
+Qed.
+
+(* the premises are satisfiable: two adds, one update, one delete, in another order *)
+Example batch_perm_example :
+  let i1 := {| i_ns := "d"; i_name := "i1"; i_stamp := 5; i_class := None; i_rules := [("h1.local", [])]; i_tls := [] |} in
+  let i2 := {| i_ns := "d"; i_name := "i2"; i_stamp := 5; i_class := None; i_rules := [("h2.local", [])]; i_tls := [] |} in
+  let b := {| b_links := [(KIngress, "d/i1"); (KIngress, "d/i2"); (KIngress, "d/i3")]; b_add := [i1; i2]; b_upd := []; b_del := ["d/i3"] |} in
+  let b' := {| b_links := [(KIngress, "d/i3"); (KIngress, "d/i2"); (KIngress, "d/i1")]; b_add := [i2; i1]; b_upd := []; b_del := ["d/i3"] |} in
+  batch_perm b b' /\ add_consistent b.
+Proof.
+  cbv zeta. split.
+  - constructor; cbn.
+    + eapply perm_trans; [apply perm_skip; apply perm_swap|].
+      eapply perm_trans; [apply perm_swap|]. eapply perm_trans; [apply perm_skip; apply perm_swap|]. apply Permutation_refl.
+    + apply perm_swap.
+    + constructor.
+    + apply Permutation_refl.
+  - intros i j [<-|[<-|[]]] [<-|[<-|[]]] H; cbn in H; try discriminate; left; reflexivity.
+Qed.
